@@ -11,12 +11,13 @@ Colon == <<COLON>>
 X1 == <<c_x, EQ, D1>>       Y3 == <<c_w, EQ, D3>>
 Menu == { Arg(OptF), Arg(Colon), Arg(OptF \o Colon), Arg(Optv), Arg(X1), Arg(Optv \o <<c_x, EQ, D2>>), Arg(Optv \o <<c_w, EQ, c_a, BSL, c_t, c_b>>),
           Arg(Optf), Arg(P1), Arg(Optf \o P2), Arg(DashDash), Arg(Dash), ProgArg, Arg(File1), Arg(Y3), Arg(OptE), Arg(OptE \o P1),
-          Arg(Optc), Arg(OptVersion), Arg(<<MINUS, AT>>) }
+          Arg(Optc), Arg(OptVersion), Arg(<<MINUS, AT>>), Arg(OptN \o ModeCrlf) }
 SmallMenu == { Arg(OptF \o Colon), Arg(Optv), Arg(X1), Arg(Optf), Arg(P1), Arg(DashDash), ProgArg, Arg(File1), Arg(Y3), Arg(Dash), Arg(OptE) }
 
 \* structured vectors: up to MaxUnits complete option units, then the program (or not) and operands
 Units == { <<Arg(OptF \o Colon)>>, <<Arg(OptF), Arg(Colon)>>, <<Arg(Optv), Arg(X1)>>, <<Arg(Optv \o <<c_x, EQ, D2>>)>>,
-           <<Arg(Optv \o <<c_w, EQ, c_a, BSL, c_t, c_b>>)>>, <<Arg(Optf), Arg(P1)>>, <<Arg(Optf \o P2)>>, <<Arg(Optc)>>, <<Arg(DashDash)>> }
+           <<Arg(Optv \o <<c_w, EQ, c_a, BSL, c_t, c_b>>)>>, <<Arg(Optf), Arg(P1)>>, <<Arg(Optf \o P2)>>, <<Arg(Optc)>>, <<Arg(DashDash)>>,
+           <<Arg(OptN), Arg(ModeCrlf)>>, <<Arg(OptN \o ModeRaw)>>, <<Arg(OptN \o <<c_q>>)>> }
 Tails == { <<>>, <<ProgArg>>, <<ProgArg, Arg(File1)>>, <<ProgArg, Arg(Y3), Arg(File1)>>, <<ProgArg, Arg(File1), Arg(X1), Arg(Dash)>>,
            <<Arg(File1)>>, <<Arg(File1), Arg(Y3), Arg(File1)>>, <<Arg(Dash), Arg(X1)>> }
 RECURSIVE UnitSeqs(_)
